@@ -6,7 +6,7 @@
    `contract_ok pol l` is the documented usage contract of the single-block policies (reusable_storage,
    placement_alloc, reusable_buffer_storage: one live frame at a time, placement memory large enough); it holds
    for every history of default / mtsafe / stack storage (c19_contract_free). *)
-From Cocls Require Import Base BaseProofs StorageDefs StorageProofs.
+From Cocls Require Import Base BaseProofs StorageDefs StorageProofs StorageMtProofs StorageOracleProofs.
 Local Open Scope Z_scope.
 
 Theorem c19_contract_free : forall pol l, contract_free pol = true -> contract_ok pol l = true.
@@ -48,14 +48,14 @@ Print Assumptions c19_fallback_freed_once.
 Theorem c19_warm_no_alloc : forall pol l slot sz, contract_ok pol l = true ->
   let c := final_u pol l in let p := final_p pol l in
   wf_op c (OCreate slot sz) = true -> contract p c (OCreate slot sz) = true -> pol <> PDef ->
-  sz + p_x p <= c_max c -> (pol = PMts -> s_busy (st c) = false) ->
+  nreq p sz <= c_max c -> (pol = PMts -> s_busy (st c) = false) ->
   hp (fst (create p c slot sz)) = hp c.
 Proof. exact warm_no_alloc. Qed.
 Print Assumptions c19_warm_no_alloc.
 
 Theorem c19_learned : forall pol l slot sz,
   let c := final_u pol l in let p := final_p pol l in
-  p_pol p = pol -> (pol = PMts -> s_busy (st c) = false) -> sz + p_x p <= c_max (fst (create p c slot sz)).
+  p_pol p = pol -> (pol = PMts -> s_busy (st c) = false) -> nreq p sz <= c_max (fst (create p c slot sz)).
 Proof. exact learned. Qed.
 Print Assumptions c19_learned.
 
@@ -72,17 +72,36 @@ Theorem c19_extra_object : forall pol l fid, contract_ok pol l = true ->
 Proof. exact extra_object. Qed.
 Print Assumptions c19_extra_object.
 
+(* bytes inside the block: frame [0,sz), extra object at the next multiple of its alignment behind the frame, the base
+   policy is asked for a multiple of 8 that covers both, and its trailer still fits *)
+Theorem c19_extra_placed : forall pol l i f, contract_ok pol l = true -> fget (frs (final_u pol l)) i = Some f ->
+  let p := final_p pol l in
+  let sz := f_sz f in let n := f_n f in
+  0 < sz /\ sz <= xoff p sz /\ n + trailer pol <= f_room f /\
+  (0 < p_x p -> xoff p sz mod p_xal p = 0 /\ xoff p sz + p_x p <= n /\ n mod 8 = 0) /\
+  (p_x p = 0 -> xoff p sz = sz /\ n = sz).
+Proof. exact extra_placed. Qed.
+Print Assumptions c19_extra_placed.
+
+(* the decidable trace oracle that is run on the implementation's output accepts the model's own trace of every history
+   that ends with the storage destroyed: an oracle failure on the implementation is a deviation from all of the above *)
+Theorem c19_oracle_sound : forall pol ops,
+  c_up (snd (snd (run_g pol (map decode ops)))) = false -> st_oracle pol ops (st_run pol ops) = true.
+Proof. exact oracle_sound. Qed.
+Print Assumptions c19_oracle_sound.
+
 (* thread-safe variant, every interleaving *)
 Theorem c19_mt_exclusive : forall ops s i j fi fj, mt_reach ops s ->
   fget (frs (c_core s)) i = Some fi -> fget (frs (c_core s)) j = Some fj -> i <> j -> f_blk fi <> f_blk fj.
 Proof. exact mt_exclusive. Qed.
 Print Assumptions c19_mt_exclusive.
 
+(* `ngrow` counts threads paused inside reusable_storage::alloc between `delete _ptr` and `_ptr = new` (busy_n), where _ptr dangles *)
 Theorem c19_mt_one_holder : forall ops s, mt_reach ops s ->
   nwon (c_thr s) + sumw trw (frs (c_core s)) = b2z (s_busy (st (c_core s))) /\
   forall i f, In (i, f) (frs (c_core s)) ->
-    if f_tr f then f_blk f = optblk (s_ptr (st (c_core s)))
-    else exists b, f_blk f = BHeap b /\ s_ptr (st (c_core s)) <> Some b.
+    if f_tr f then ngrow (c_thr s) = 0 /\ f_blk f = optblk (s_ptr (st (c_core s)))
+    else exists b, f_blk f = BHeap b /\ (ngrow (c_thr s) = 0 -> s_ptr (st (c_core s)) <> Some b).
 Proof. exact mt_one_holder. Qed.
 Print Assumptions c19_mt_one_holder.
 
@@ -94,10 +113,17 @@ Print Assumptions c19_mt_size_valid.
 Theorem c19_mt_freed_once : forall ops s, mt_reach ops s ->
   let h := hp (c_core s) in
   h_bad h = 0 /\ h_allocs h - h_frees h = zlen (h_live h) /\
-  zlen (h_live h) = nsown PMts (st (c_core s)) + sumw (owns PMts) (frs (c_core s)) /\
-  (frs (c_core s) = [] -> let h1 := hp (destroy pm (c_core s)) in h_live h1 = [] /\ h_allocs h1 = h_frees h1 /\ h_bad h1 = 0).
+  zlen (h_live h) = nsown PMts (eff (c_thr s) (st (c_core s))) + sumw (owns PMts) (frs (c_core s)) /\
+  (frs (c_core s) = [] -> nwon (c_thr s) = 0 ->
+   let h1 := hp (destroy pm (c_core s)) in h_live h1 = [] /\ h_allocs h1 = h_frees h1 /\ h_bad h1 = 0).
 Proof. exact mt_freed_once. Qed.
 Print Assumptions c19_mt_freed_once.
+
+(* liveness: under every schedule every thread completes its program: nobody waits for _busy, nobody stays inside alloc *)
+Theorem c19_mt_all_done : forall ops,
+  Forall (fun t => t_prog t = [] /\ t_won t = None) (c_thr (fst (mt_final ops))).
+Proof. exact mt_all_done. Qed.
+Print Assumptions c19_mt_all_done.
 
 (* the state the wire-level runner ends in is one of those states, whatever the schedule *)
 Theorem c19_mt_run_covered : forall ops, mt_reach ops (fst (mt_final ops)).
@@ -106,14 +132,14 @@ Print Assumptions c19_mt_run_covered.
 
 (* non-vacuity: a reachable mtsafe state with three live frames (one in the shared block, two fallbacks) *)
 Example c19_nonvacuous :
-  let l := [OInit 24 0 0; OCreate 0 120; OCreate 1 104; OFinish 0; OCreate 2 136; OCreate 3 96] in
+  let l := [OInit 24 0 0 8; OCreate 0 120; OCreate 1 104; OFinish 0; OCreate 2 136; OCreate 3 96] in
   contract_ok PMts l = true /\ length (frs (final_u PMts l)) = 3%nat /\
   sumw trw (frs (final_u PMts l)) = 1 /\ h_allocs (hp (final_u PMts l)) = 4 /\ h_frees (hp (final_u PMts l)) = 1.
 Proof. vm_compute. repeat split; reflexivity. Qed.
 
 (* the contract is necessary: without it reusable_storage frees the block under a live frame *)
 Example c19_contract_needed :
-  let l := [OInit 0 0 0; OCreate 0 104; OCreate 1 296] in
+  let l := [OInit 0 0 0 8; OCreate 0 104; OCreate 1 296] in
   contract_ok PReu l = false /\
   exists f, fget (frs (final_u PReu l)) 0 = Some f /\ f_blk f = BHeap 0 /\ hmem 0 (h_live (hp (final_u PReu l))) = false.
 Proof. vm_compute. split; [reflexivity|]. eexists. repeat split; reflexivity. Qed.
@@ -121,10 +147,18 @@ Proof. vm_compute. split; [reflexivity|]. eexists. repeat split; reflexivity. Qe
 (* non-vacuity of the warm-up and life-cycle statements: frame 0 finished (6 events), frame 1 live (3 events), and a
    third creation of the learned size is admissible and free *)
 Example c19_nonvacuous_warm :
-  let l := [OInit 24 0 0; OCreate 0 296; OFinish 0; OCreate 1 104] in
+  let l := [OInit 24 0 0 8; OCreate 0 296; OFinish 0; OCreate 1 104] in
   contract_ok PReu l = true /\ c_max (final_u PReu l) = 320 /\
   evs_of 0 (c_log (final_u PReu l)) = [1; 2; 3; 6; 4; 5] /\ evs_of 1 (c_log (final_u PReu l)) = [1; 2; 3] /\
   evs_of 2 (c_log (final_u PReu l)) = [] /\
   let l2 := l ++ [OFinish 1] in
   wf_op (final_u PReu l2) (OCreate 2 296) = true /\ contract (final_p PReu l2) (final_u PReu l2) (OCreate 2 296) = true.
 Proof. vm_compute. repeat split; reflexivity. Qed.
+
+(* the placement matters: with an extra object of alignment 16 behind a 104-byte frame the object goes to offset 112,
+   not 104, and the base policy is asked for 144 bytes *)
+Example c19_nonvacuous_placed :
+  let l := [OInit 32 0 0 16; OCreate 0 104] in
+  contract_ok PMts l = true /\
+  exists f, fget (frs (final_u PMts l)) 0 = Some f /\ xoff (final_p PMts l) (f_sz f) = 112 /\ f_n f = 144 /\ f_room f = 152.
+Proof. vm_compute. split; [reflexivity|]. eexists. repeat split; reflexivity. Qed.
